@@ -23,10 +23,13 @@ DEVS = [
     {"dev": {"k": "disc_withhold"}, "need_disclosed": 1},
     {"dev": {"k": "reported_missing_entry"}},
     {"dev": {"k": "subst_disclosed_everywhere"}, "need_disclosed": 1},
+    {"dev": {"k": "withhold_consistent"}, "need_disclosed": 1},
+    {"dev": {"k": "withhold_consistent"}, "need_disclosed": 2},
+    {"dev": {"k": "extra_consistent"}},
 ]
 SHAPES = [dict(n_creds=1, n_claims=5), dict(n_creds=1, comm=True, n_claims=5), dict(n_creds=2, eq=True, n_claims=5), dict(n_creds=1, n_claims=3)]
 
 
 def explore(ctx):
     return K.explore_generic("C02", ctx, DEVS, SHAPES, {"C02"},
-                             "(reported map with substituted value of the same / another claim type, omitted label, extra label, unknown label, swapped labels; proof index list reversed, aliased, padded with out-of-range indices in front / at the end, a requested claim withheld from the index list, missing map entry, consistently substituted value)")
+                             "(reported map with substituted value of the same / another claim type, omitted label, extra label, unknown label, swapped labels; proof index list reversed, aliased, padded with out-of-range indices in front / at the end, a requested claim withheld from the index list, missing map entry, consistently substituted value, a requested claim withheld consistently everywhere, an unrequested claim disclosed consistently everywhere)")
